@@ -551,3 +551,27 @@ Proof.
 Qed.
 
 End WithParser.
+
+(* ---- the premises are met by non-trivial inputs; hand-built ill-formed trees give errors ---- *)
+Example nonpanicking_inhabited :
+  let c := mkctx KHashMap [(s2l "x", VInt 1)]
+                 [(s2l "swap", apply_libfn (s2l "swap") LSwap); (s2l "fst", apply_libfn (s2l "fst") LFst)] false in
+  nonpanicking c /\ np_funs c.
+Proof.
+  cbv zeta. assert (H : np_funs (mkctx KHashMap [(s2l "x", VInt 1)]
+                 [(s2l "swap", apply_libfn (s2l "swap") LSwap); (s2l "fst", apply_libfn (s2l "fst") LFst)] false)).
+  { unfold np_funs. cbn [c_funs]. repeat constructor; intros a; apply apply_libfn_no_panic. }
+  split; [apply np_funs_nonpanicking; exact H|exact H].
+Qed.
+
+Example ill_formed_trees_are_errors : forall O : std_oracle,
+  fst (eval_ro O (Node OAdd []) empty_hashmap []) = Err (EWrongOperatorArgumentAmount 2 0) /\
+  fst (eval_ro O (Node ONot [Node (OConst (VBool true)) []; Node (OConst VEmpty) []]) empty_hashmap [])
+    = Err (EWrongOperatorArgumentAmount 1 2) /\
+  fst (fst (eval_mut O (Node OAddAssign [Node (OConst (VInt 1)) []]) empty_hashmap []))
+    = Err (EWrongOperatorArgumentAmount 2 1) /\
+  fst (eval_ro O (Node (OFunctionIdentifier (s2l "shl")) [Node (OConst (VTuple [VInt 1; VInt 64])) []])
+         empty_context_builtin []) = Ok (VInt 1) /\
+  fst (eval_ro O (Node (OConst (VInt 1)) [Node (OConst (VInt 2)) []]) empty_hashmap [])
+    = Err (EWrongOperatorArgumentAmount 0 1).
+Proof. intros. repeat split; vm_compute; reflexivity. Qed.
